@@ -11,6 +11,7 @@ import (
 )
 
 var checks = map[string]func(run *ev.Run){
+	"C01": genlab.CheckC01,
 	"C02": genlab.CheckC02,
 	"C03": genlab.CheckC03,
 	"C05": genlab.CheckC05,
